@@ -274,6 +274,16 @@ def run_property(pid, tier, seed):
                           open(path, 'w'), indent=1)
                 dyn_viol.append((script, path))
 
+    # ---- known findings: in the thorough tier their reproductions are run on the real code (expected to fail while the finding stands); the outcome goes
+    # into the evidence, it is never a violation and nothing is written to KNOWN_FINDINGS.txt
+    finding_runs = []
+    if tier == 'thorough' and printed:
+        for key, script, *rest in getattr(mod, 'FINDING_SCENARIOS', ()):
+            if not any(key in k['obligation'] for k in kf):
+                continue
+            sc_failed, out, cmd = run_scenario(script, rest[0] if rest else (), timeout=rest[1] if len(rest) > 1 else 150)
+            finding_runs.append({'cmd': ' '.join(cmd), 'still_reproduces': bool(sc_failed), 'tail': out[-400:]})
+
     # ---- evidence
     functions = []
     ignored = []
@@ -318,6 +328,7 @@ def run_property(pid, tier, seed):
             'undecided': [f'{n}: {w}' for n, w in undecided],
             'engine_errors': engine_errors,
             'known_findings_printed': printed,
+            'known_finding_reproductions': finding_runs,
             'bounded_standins': getattr(mod, 'BOUNDED', []),
             'samples': samples,
             'mpservice_imported_from': check_repo_import(),
